@@ -125,7 +125,9 @@ Section Inst.
   | CDotN (PA La Lb QB M : nat) (fa fb : list elt)
   | CMatmulN (SA SB : list nat) (n La Lb p : nat) (fa fb : list elt)
   | CScale (lft : bool) (sc : elt) (fa : list elt)
-  | CMatmulMixed (ra rb : nat).
+  | CMatmulMixed (ra rb : nat)
+  | CDtypeMismatch
+  | CTransposeN (shape axes : list nat) (fa : list elt).
 
   (* result rows and the contents of the argument arrays after the call *)
   Definition outcome := res (list (list elt) * list (list elt) * list (list elt)).
@@ -164,6 +166,9 @@ Section Inst.
     | CMatmulN SA SB n La Lb p fa fb =>
         if negb (bcast_ok SA SB && Nat.eqb La Lb) then Err ValueError else
         r <- nd_matmul FElt SA SB n La p (of_list FElt fa) (of_list FElt fb) ;; Ok ([r], [fa], [fb])
+    | CTransposeN shape axes fa =>
+        Ok ([nd_transpose shape axes (of_list FElt fa)], [fa], [])
+    | CDtypeMismatch => Err AssertionError      (* LU.solve / LU.invab: assert a.dtype == b.dtype *)
     | CMatmulMixed ra rb =>
         (* known finding C15-3: la.matmul pairs the stacks of operands of the SAME rank only; with
            different ranks, one of them >= 3, the shorter operand is indexed with too many indices *)
